@@ -366,7 +366,10 @@ def finish(ctx: Ctx, mod):
             print("HARNESS-ERROR: replay of violating case raised:\n" + traceback.format_exc())
             return 2
         nrep = sum(1 for r in reps if r)
-        if nrep == 0:
+        if nrep == 0 and ctx.notes.get("nondeterministic_code"):
+            print("NOTE: the first violating execution did not reproduce in 5 replays; the code under test was observed not to be a function of the "
+                  "schedule during exploration (replay divergences), so the violation found there is reported as it was recorded")
+        elif nrep == 0:
             print("HARNESS-ERROR: violating case does not reproduce when replayed alone (state leak in harness?)")
             print(json.dumps(v)[:3000])
             return 2
